@@ -11,8 +11,7 @@ use std::{
     hash::{Hash, Hasher},
 };
 
-use bytes::BytesMut;
-use mpd_client::{client::Subsystem, protocol::command::Argument, tag::Tag};
+use mpd_client::{client::Subsystem, tag::Tag};
 use serde_json::{json, Value};
 
 use crate::{
@@ -90,11 +89,9 @@ fn case_variants(s: &str) -> Vec<String> {
     v
 }
 
-/// protocol name of a tag, observed through its public `Argument` rendering
+/// protocol name of a tag: its public `Argument` rendering as the server reads it
 fn tag_name(t: &Tag) -> String {
-    let mut b = BytesMut::new();
-    t.render(&mut b);
-    String::from_utf8_lossy(&b).into_owned()
+    argument_as_the_server_reads_it(t)
 }
 
 fn h1<T: Hash>(t: &T) -> u64 {
